@@ -135,6 +135,7 @@ def verify_subscript(
         out.extend([slice(0, corresponding_shape[i], 1) for i in range(1, ndim)])
         return tuple(out)
     elif isinstance(subscript, Sequence):
+        subscript = tuple(subscript)
         # check for Ellipsis usage...
         ellipsis_location = None
         for index, entry in enumerate(subscript):
